@@ -74,6 +74,28 @@ def run_scheduled(bl, calls_per_thread, runlens):
     for t in ts: t.join(timeout=120)
     return results, sched.switches
 
+def flagged_ticks(bl, call, flagged):
+    """run `call` alone under a line tracer: (number of line events inside the package, the tick numbers that fall into
+    the dynamic extent of a statement at a flagged (file, line): from the moment the statement starts until its frame moves on)"""
+    pkg = os.path.dirname(bl.__file__)
+    ticks = [0]; inext = []; active = {}
+    def local(frame, event, arg):
+        if event == 'line':
+            ticks[0] += 1
+            fid = id(frame)
+            if fid in active: del active[fid]
+            if (frame.f_code.co_filename, frame.f_lineno) in flagged: active[fid] = True
+            if active: inext.append(ticks[0])
+        elif event == 'return':
+            active.pop(id(frame), None)
+        return local
+    def glob(frame, event, arg):
+        return local if frame.f_code.co_filename.startswith(pkg) else None
+    sys.settrace(glob)
+    try: canon_run_nosignal(bl, call)
+    finally: sys.settrace(None)
+    return ticks[0], inext
+
 def canon_run_nosignal(bl, p):
     """canon.run without SIGALRM (signals only work in the main thread)"""
     entry, opts, s = p
@@ -103,6 +125,12 @@ def run(ctx):
     from propchecks.c18 import fresh_outcome
     with mp.Pool(16) as mpool:
         solo = dict(zip([json.dumps(p, sort_keys=True) for p in pool], mpool.map(fresh_outcome, [list(p) for p in pool])))
+    victims = [('parse', {}, 'a <<E | b\nx\nE\nc d'), ('parse', {}, 'a; b\nc $(d) e\n'), ('parse', {}, 'a $(b <<E\nx\nE\n) c\nd'), ('parse', dict(convertpos=True), 'for a; do b; done >x; c'),
+               ('single', {}, 'a "$(b)" `c`'), ('split', {}, 'a "b c" $(d)')]
+    others = [('parse', {}, 'cat <<EOF\nhello\nworld\nEOF\n'), ('parse', {}, 'a\nb'), ('parse', {}, 'x $(y `z`) "w" <(v)'), ('parse', {}, 'if a; then b; fi )')]
+    extra_pool = victims + others
+    with mp.Pool(16) as mpool:
+        solo.update(zip([json.dumps(p, sort_keys=True) for p in extra_pool], mpool.map(fresh_outcome, [list(p) for p in extra_pool])))
     # the model agrees with the solo outcomes (ties the interleaving theorem to these calls)
     corr_broken = []
     for p, rep in zip(pool, runner.model_batch([runner.req_line(*p) for p in pool])):
@@ -133,6 +161,36 @@ def run(ctx):
                                                                  how='deterministic line-level scheduler (sys.settrace, run-token hand-over)'))
             if len(rs) != len(cs): note('thread-did-not-finish', dict(calls=[[list(c) for c in t] for t in calls], runlens=runlens, thread=t))
         if ctx.get('replay'): break
+    # ---- one preemption, placed systematically: the victim runs k line events, the other call runs to completion,
+    # the victim finishes.  k ranges over the line events inside the dynamic extent of the statements the translator
+    # flags as touching state that outlives a call (write sites, shared containers) - the only places where another
+    # thread can be observed - and over a spread of all other line events.
+    pkgdir = os.path.dirname(bl.__file__)
+    sites = ((ctx['prep'].extract.get('Effects') or {}).get('shared_site_lines') or []) if ctx.get('prep') is not None else []
+    flagged = set((os.path.join(pkgdir, m.split('.')[-1] + '.py'), int(l)) for m, l, _ in sites)
+    budget = 240 if quick else 6000
+    per_pair = max(6, budget // (len(victims) * len(others)))
+    targeted = 0; untargeted = 0
+    if not ctx.get('replay'):
+        for v in victims:
+            n, inext = flagged_ticks(bl, v, flagged)
+            for o in others:
+                ks = set(rng.sample(inext, min(len(inext), per_pair * 2 // 3))) if inext else set()
+                targeted += len(ks)
+                rest = [k for k in range(1, n + 1) if k not in ks]
+                extra = rng.sample(rest, min(len(rest), per_pair - len(ks))) if rest else []
+                untargeted += len(extra)
+                for k in sorted(ks | set(extra)):
+                    calls = [[v], [o]]; runlens = [k, 10 ** 9]
+                    results, sw = run_scheduled(bl, calls, runlens)
+                    total_switches += sw
+                    for t, (cs, rs) in enumerate(zip(calls, results)):
+                        for c, r in zip(cs, rs):
+                            evaluations += 1; nontrivial.add((json.dumps(c, sort_keys=True), k))
+                            if r != solo[json.dumps(c, sort_keys=True)]:
+                                note('outcome-depends-on-interleaving', dict(calls=[[list(c) for c in t] for t in calls], runlens=runlens, thread=t, call=list(c),
+                                                                             got=r[:400], alone=solo[json.dumps(c, sort_keys=True)][:400],
+                                                                             how='one preemption after %d line events of the first call (targeted at statements touching shared state), the other call runs to completion' % k))
     # ---- free-running stress ----
     sys.setswitchinterval(1e-6)
     try:
@@ -160,4 +218,4 @@ def run(ctx):
                      'outcome compared with the same call run alone' % (nsched, len(pool), total_switches),
                 samples=[[list(p) for p in pool[:3]]],
                 violations=violations, finding_hits={}, corr_broken=corr_broken, classes={},
-                extra=dict(signature_counts=dict(sig_count), handovers=total_switches, schedules=nsched))
+                extra=dict(targeted_preemptions=targeted, untargeted_preemptions=untargeted, flagged_shared_sites=len(flagged), signature_counts=dict(sig_count), handovers=total_switches, schedules=nsched))
